@@ -35,13 +35,79 @@ def usage_sweep(text_ids):
                     live.spin(loop, 4)
             except Exception as e:  # noqa: BLE001
                 err = f"{type(e).__name__}: {e}"
-            for k, v in conn._message_handlers.items():
-                if set(v) - before.get(k, set()):
-                    subs.add(k.__name__)
+            from aioesphomeapi import api_pb2 as _pb
+
+            def answer():
+                """play a device that answers: for every type subscribed since the call began, feed a default
+                message of that type whose same-named fields echo the last request written"""
+                last = None
+                for w in tr.writes:
+                    for t, payload in live.decode_plain(w):
+                        nm_ = id2name.get(t)
+                        if nm_ and hasattr(_pb, nm_):
+                            last = getattr(_pb, nm_)()
+                            try:
+                                last.MergeFromString(payload)
+                            except Exception:  # noqa: BLE001
+                                last = None
+                for k, v in list(conn._message_handlers.items()):
+                    if not (set(v) - before.get(k, set())):
+                        continue
+                    m = k()
+                    if last is not None:
+                        for fd in k.DESCRIPTOR.fields:
+                            if fd.name in last.DESCRIPTOR.fields_by_name and not fd.is_repeated and fd.message_type is None:
+                                lf = last.DESCRIPTOR.fields_by_name[fd.name]
+                                if lf.type == fd.type and not lf.is_repeated:
+                                    setattr(m, fd.name, getattr(last, fd.name))
+                    try:
+                        live.feed_message(conn, m)
+                    except Exception:  # noqa: BLE001
+                        pass
+
+            def record():
+                for k, v in conn._message_handlers.items():
+                    if set(v) - before.get(k, set()):
+                        subs.add(k.__name__)
+
+            record()
+            # the teardown half: let the call complete against an answering device, then invoke whatever
+            # unsubscribe / stop callables it returned (awaiting them if they are coroutines)
+            if task is not None and err is None:
+                for _ in range(3):
+                    if task.done():
+                        break
+                    answer()
+                    live.spin(loop, 4)
+                    record()
+            result = None
+            if task is not None and task.done() and not task.cancelled() and task.exception() is None:
+                result = task.result()
+            elif task is None and err is None:
+                result = r
+            closers = [c for c in (result if isinstance(result, (tuple, list)) else [result]) if callable(c)]
+            for c in closers:
+                try:
+                    r2 = c()
+                    if inspect.iscoroutine(r2):
+                        t2 = loop.create_task(r2)
+                        live.spin(loop, 4)
+                        if not t2.done():
+                            answer()
+                            live.spin(loop, 4)
+                        if not t2.done():
+                            t2.cancel()
+                            try:
+                                loop.run_until_complete(t2)
+                            except BaseException:  # noqa: BLE001
+                                pass
+                except Exception:  # noqa: BLE001
+                    pass
+                record()
             for w in tr.writes:
                 for t, _ in live.decode_plain(w):
                     sent.append(id2name.get(t, f"<undeclared id {t}>"))
-            if task is not None:
+            if task is not None and not task.done():
                 task.cancel()
                 try:
                     loop.run_until_complete(task)
